@@ -94,12 +94,14 @@ class SystemComponent(BaseComponent):
             return_when=asyncio.tasks.FIRST_COMPLETED,
         )
         if error_state in done:
+            on_tick.cancel()
             await self.state_producer.produce(
                 output_topic(self.name),
                 self.scheduler.component_error,
             )
 
         else:
+            error_state.cancel()
             output_changes, call_in = on_tick.result()
             await self.output(time, output_changes, call_in)
 
